@@ -861,6 +861,14 @@ def desugar_iter(body, qualname):
             params[0], args[0], params[1], recv, params[0], cb, params[0])
         body = body[:st] + rep + body[c + 1:]
         applied.append({'rule': 'D2 fold -> accumulator loop', 'receiver': recv})
+    # ---- R14 : `X.into_iter()` handed to a callee as an argument is emitted as `(X.into_iter()).into_iter()`.
+    # `Iterator::into_iter` is the identity (core: `impl<I: Iterator> IntoIterator for I { fn into_iter(self) -> I { self } }`);
+    # the extra call only restores the type information Verus drops for the associated type of the by-value
+    # `IntoIterator` impls of VecDeque / HashMap (no projection axiom is generated for them outside vstd).
+    def _r14(mm):
+        applied.append({'rule': 'R14 identity into_iter on by-value iterator argument', 'receiver': mm.group(1)})
+        return '(%s.into_iter()).into_iter()' % mm.group(1)
+    body = re.sub(r'(?<![\w.)])([A-Za-z_][A-Za-z0-9_]*(?:\.[A-Za-z_][A-Za-z0-9_]*)*)\.into_iter\(\)(?=\s*[,)])', _r14, body)
     return body, applied
 
 
